@@ -959,6 +959,8 @@ def call_ext(it, dotted, args, kwargs):
                 return False
         return True
     if short == 'clip':
+        if isinstance(args[0], (list, tuple, Arr)):
+            return _mapnum(lambda x: call_ext(it, dotted, [x] + list(args[1:]), kwargs), args[0])
         x = _num(args[0])
         lo, hi = _num(args[1]), _num(args[2])
         f = x.as_fraction()
@@ -1033,6 +1035,37 @@ def call_ext(it, dotted, args, kwargs):
         if isinstance(v, (tuple, str, int, Rat)) or v is None:
             return v
         raise Undecidable('copy of %r' % (v,))
+    if mod == 're' and short in ('findall', 'split', 'sub', 'escape'):
+        # concrete pattern on a concrete string: the standard library's own answer (the regex engine is trusted, see E6)
+        if all(isinstance(a, (str, int)) for a in args) and all(isinstance(v, (str, int)) for v in kwargs.values()):
+            import re as _re
+            try:
+                return getattr(_re, short)(*args, **kwargs)
+            except _re.error:
+                raise PyRaise('re.error')
+        raise Undecidable('re.%s on a symbolic string' % short)
+    if short == 'vdot' and mod in ('numpy', 'np'):
+        a, b = it.iterate(args[0]), it.iterate(args[1])
+        if len(a) != len(b):
+            raise PyRaise('ValueError')
+        tot = Rat.const(0)
+        for x, y in zip(a, b):
+            tot = tot + _num(x).conj() * _num(y)       # vdot conjugates its FIRST argument
+        return tot
+    if short == 'trim_zeros' and mod in ('numpy', 'np'):
+        seq = it.iterate(args[0])
+        trim = kwargs.get('trim', args[1] if len(args) > 1 else 'fb')
+        trim = trim.lower() if isinstance(trim, str) else 'fb'
+        isz = lambda x: isinstance(x, (Rat, int, float, Fr)) and _num(x).is_zero()     # exact zeros only (what numpy sees at run time)
+        lo, hi = 0, len(seq)
+        if 'f' in trim:
+            while lo < hi and isz(seq[lo]):
+                lo += 1
+        if 'b' in trim:
+            while hi > lo and isz(seq[hi - 1]):
+                hi -= 1
+        out = seq[lo:hi]
+        return Arr(out) if isinstance(args[0], Arr) else (tuple(out) if isinstance(args[0], tuple) else list(out))
     if short == 'partial' and mod == 'functools':
         from .values import PyFunc
         f0, pre, prekw = args[0], list(args[1:]), dict(kwargs)
